@@ -98,6 +98,10 @@ func (share *Share) Verify(ec elliptic.Curve, threshold int, vs Vs) bool {
 	}
 	var err error
 	modQ := common.ModInt(ec.Params().N)
+	// an id or a share that is 0 modulo the group order maps to the identity, which cannot be represented
+	if new(big.Int).Mod(share.ID, ec.Params().N).Sign() == 0 || new(big.Int).Mod(share.Share, ec.Params().N).Sign() == 0 {
+		return false
+	}
 	v, t := vs[0], one // YRO : we need to have our accumulator outside of the loop
 	for j := 1; j <= threshold; j++ {
 		// t = k_i^j
